@@ -26,8 +26,9 @@ import (
 // explicit `overlayID == baseID` branch and has no heap).
 //
 // Instances: every head modification inside the loop, in source order — a call of
-// container/heap.Fix/Pop/Push/Remove/Init, and a call of a method named Next on an element of
-// the heap. Obligation (go/cfg, from just after the modification): every path meets, before
+// container/heap.Fix/Pop/Push/Remove/Init, a call of a method named Next on an element of
+// the heap, and a direct edit of the heap's storage (h[i] = ..., h = h[a:b]; whether such an
+// edit keeps the heap order is decided by HEAP-DISCIPLINE, not here). Obligation (go/cfg, from just after the modification): every path meets, before
 // it leaves the loop (break, return) —
 //   - a condition that compares against cur with == or != (any edge of it may leave), or
 //   - the empty edge of a condition that only tests the heap's length against 0, or
@@ -192,10 +193,32 @@ func runMergeDedup(c *Ctx) []Obligation {
 				return ok && sameExpr(ninfo, ix.X, heapExpr)
 			}
 			isMod := func(call *ast.CallExpr) bool { return isHeapCall(call) || isElementNext(call) }
-			var mods []*ast.CallExpr
+			// a direct edit of the heap's storage (h[i] = ..., h = h[a:b]) changes the head as well;
+			// whether it keeps the heap order is HEAP-DISCIPLINE's question, here it only counts as
+			// one more modification after which the head must be looked at again
+			isDirectEdit := func(n ast.Node) bool {
+				as, ok := n.(*ast.AssignStmt)
+				if !ok || heapExpr == nil || as.Tok == token.DEFINE {
+					return false
+				}
+				for _, l := range as.Lhs {
+					l = ast.Unparen(l)
+					if ix, ok := l.(*ast.IndexExpr); ok && sameExpr(ninfo, ix.X, heapExpr) {
+						return true
+					}
+					if sameExpr(ninfo, l, heapExpr) {
+						return true
+					}
+				}
+				return false
+			}
+			var mods []ast.Node
 			inspectShallow(sk.loop.Body, func(n ast.Node) bool {
 				if call, ok := n.(*ast.CallExpr); ok && isMod(call) {
 					mods = append(mods, call)
+				}
+				if isDirectEdit(n) {
+					mods = append(mods, n)
 				}
 				return true
 			})
@@ -269,12 +292,12 @@ func runMergeDedup(c *Ctx) []Obligation {
 					out = append(out, ob)
 					continue
 				}
-				modText := types.ExprString(mod)
+				modText := nodeText(c.Fset, mod)
 				// the node holding the modification may itself be a condition that also compares cur
 				startsWithTest := mentionsCur(loc.b.Nodes[loc.i])
 				s := &gSearch{c: c, info: ninfo, exitBad: true,
 					stopNode: func(n ast.Node) bool {
-						return mentionsCur(n) || gContainsCall(n, isMod)
+						return mentionsCur(n) || gContainsCall(n, isMod) || isDirectEdit(n)
 					},
 					stopEdge: func(b *cfg.Block, k int) bool {
 						z, ok := emptyEdge(b)
